@@ -361,6 +361,58 @@ pub fn run(ctx: &Ctx) -> i32 {
             ev.count("harness-note:no-probe-hit");
         }
     }
+    // one FST well beyond 64 MiB (an implementation may treat big inputs differently): opening it over borrowed bytes and over a
+    // memory map, point lookups, and the first items of a stream
+    {
+        let n: u64 = 7_000_000;
+        let big = build_map(n, 3, 0);
+        ev.note("big_fst_bytes", J::U(big.len() as u64));
+        let path = ctx.root.join("target").join("tmp");
+        let _ = std::fs::create_dir_all(&path);
+        let file = path.join("c14-big.fst");
+        std::fs::write(&file, &big).unwrap();
+        let fh = std::fs::File::open(&file).unwrap();
+        let mm = unsafe { memmap2::Mmap::map(&fh).unwrap() };
+        let mut rng = Rng::new(ctx.seed, 0xb16);
+        let probes: Vec<[u8; 10]> = (0..20_000)
+            .map(|_| {
+                let mut x = rng.below(n * 3 + 10);
+                let mut buf = [0u8; 10];
+                for p in (0..10).rev() {
+                    buf[p] = b'0' + (x % 10) as u8;
+                    x /= 10;
+                }
+                buf
+            })
+            .collect();
+        let (r, hits) = measured(|| {
+            let f = Fst::new(&big[..]).unwrap();
+            let g = Fst::new(&mm[..]).unwrap();
+            let m = Map::new(&big[..]).unwrap();
+            let mut hits = 0u64;
+            for p in &probes {
+                if f.get(p).is_some() {
+                    hits += 1;
+                }
+                if g.contains_key(p) {
+                    hits += 1;
+                }
+                if m.get(&p[..6]).is_some() {
+                    hits += 1;
+                }
+            }
+            hits
+        });
+        ev.eval(Some(crate::rng::fnv_u64(0xb16f, n)));
+        ev.count("zero-alloc-sections");
+        ev.count("zero-alloc-sections:fst-larger-than-64-MiB");
+        table.push(J::obj(vec![("op", J::s(format!("open an FST of {} bytes over &[u8] and Mmap + 60000 lookups", big.len()))), ("n_keys", J::U(n)), ("items", J::U(hits)), ("peak_live_bytes", J::U(r.peak)), ("allocations", J::U(r.allocs))]));
+        if r.allocs != 0 {
+            ev.violate("lookup-allocates", format!("opening an FST of {} bytes over borrowed / mapped bytes + 60000 point lookups performed {} allocations ({} bytes at the peak)", big.len(), r.allocs, r.peak), J::U(n));
+        }
+        drop(mm);
+        let _ = std::fs::remove_file(&file);
+    }
     // judge: absolute a-priori bounds and independence from N
     for (name, rows) in &per_op {
         let k = name.split("k=").nth(1).and_then(|s| s.parse::<u64>().ok()).unwrap_or(0);
@@ -397,7 +449,7 @@ pub fn run(ctx: &Ctx) -> i32 {
             level: "exploration",
             rule: "one evaluation = one complete traversal (or lookup section) of an FST with N 10-byte keys under the counting global allocator (single-threaded): full stream, range over 90%, range/search with a 70-byte lower bound, search(Subsequence), search(dfa) with lower bound, search_with_state, Map stream/keys/values, and union/intersection/difference/symmetric_difference over k in {2,3,5,8} streams (FSTs and range streams); peak live heap must stay under the generous constant 256 KiB + k*64 KiB, must not exceed the N=10^4 value by more than 25% + 256 B at N=10^5, 10^6 (thorough 10^7), (the NUMBER of allocations is recorded; a growing count is evidence, not a verdict, since the statement bounds the heap held); also measured: {:?} formatting of a Map and a Set into a discarding writer, and operations whose single next() call skips ~N candidates (disjoint intersections, cancelling differences, Set relations); Fst::new over &[u8], Map::new, Fst::new over a memory map and 10^5 get/contains_key probes (hits and misses; decimal keys and random binary keys over all 256 byte values) must perform exactly 0 allocations, as must opening version-1 and version-2 files over borrowed bytes; 20000 bounded range scans on one thread must leave no more live heap behind than 500 do; non-trivial = every measurement; distinct = (operation, N)",
             assumptions: vec!["the restated, decidable claim is bounded scales, not 'for all N'".into(), "constants are fixed a priori from the code's initial capacities with generous slack, not fitted".into()],
-            floors: vec![("measurements", 60), ("scale-pairs-compared", 40), ("zero-alloc-sections", 12), ("many-scans-sections", 3)],
+            floors: vec![("measurements", 60), ("scale-pairs-compared", 40), ("zero-alloc-sections", 12), ("zero-alloc-sections:fst-larger-than-64-MiB", 1), ("many-scans-sections", 3)],
             exhaustive: Some(false),
         },
     )
